@@ -651,8 +651,9 @@ func callTakes(call ssa.CallInstruction, root *ssa.Alloc) bool {
 	}
 	if !cc.IsInvoke() {
 		if mc, ok := cc.Value.(*ssa.MakeClosure); ok {
-			for _, b := range mc.Bindings {
-				if allocRoot(b) == root {
+			g := mc.Fn.(*ssa.Function)
+			for i, b := range mc.Bindings {
+				if allocRoot(b) == root && (i >= len(g.FreeVars) || mayWriteThrough(g, g.FreeVars[i], 0)) {
 					return true
 				}
 			}
@@ -1273,4 +1274,43 @@ func deferredOnlyFillNil(fn *ssa.Function, a *ssa.Alloc) bool {
 		}
 	}
 	return ok && any
+}
+
+
+// mayWriteThrough tells whether function g may write the cell its free variable / parameter v
+// points to: a store through it, or handing it on to anything but a load.
+func mayWriteThrough(g *ssa.Function, v ssa.Value, depth int) bool {
+	if depth > 3 {
+		return true
+	}
+	for _, r := range *v.Referrers() {
+		switch x := r.(type) {
+		case *ssa.UnOp:
+			// load: fine
+		case *ssa.DebugRef:
+		case *ssa.Store:
+			if x.Addr == v {
+				return true
+			}
+			return true // the pointer itself is stored somewhere
+		case *ssa.FieldAddr:
+			if mayWriteThrough(g, x, depth+1) {
+				return true
+			}
+		case *ssa.IndexAddr:
+			if mayWriteThrough(g, x, depth+1) {
+				return true
+			}
+		case *ssa.MakeClosure:
+			h := x.Fn.(*ssa.Function)
+			for i, b := range x.Bindings {
+				if b == v && (i >= len(h.FreeVars) || mayWriteThrough(h, h.FreeVars[i], depth+1)) {
+					return true
+				}
+			}
+		default:
+			return true
+		}
+	}
+	return false
 }
